@@ -513,7 +513,7 @@ def to_tuple(it, v):
     if items is not None:
         return tuple(items)
     if isinstance(v, (SymSeq, SymList)):
-        return SymSeq(v.length, v.arr, v.ety, "tuple")
+        return SymSeq(v.length, v.arr, v.ety, "tuple", getattr(v, "meta", None))
     if isinstance(v, KeyIter):
         return v
     if isinstance(v, SymObj) and "$tuple" in v.fields:
@@ -1594,8 +1594,7 @@ def comp_filter(it, e, env, kind, s):
     ctx.notes.append("filter-comprehension")
     if kind == "list":
         return SymList(m, arr, ety)
-    r = SymSeq(m, arr, ety, "gen" if kind == "gen" else "tuple")
-    r_idx = idx
+    r = SymSeq(m, arr, ety, "gen" if kind == "gen" else "tuple", {"filter_idx": idx, "filter_pos": pos, "source_len": n})
     return r
 
 
